@@ -477,3 +477,44 @@ func VX_C05_ThriftConcurrentPack(args []int) {
 	vxAssert(seen[1] && seen[2], "both messages arrive")
 	vxCover("c05.thrift.concurrent-pack")
 }
+
+func init() { vxRegister("VX_C01_ThriftMetaSeq", VX_C01_ThriftMetaSeq) }
+
+// VX_C01_ThriftMetaSeq: four messages in sequence through one thrift-binary
+// protocol instance; whether each carries metadata is chosen per message (all
+// 16 patterns), the values are symbolic. Every message decodes to exactly the
+// metadata it was given - nothing of an earlier message on the connection
+// shows up in a later one. args: nVal (symbolic bytes of the first value, the others are distinct literals)
+func VX_C01_ThriftMetaSeq(args []int) {
+	vxStepBudget(80)
+	w := &vxTBuf{}
+	pw := NewBinaryProtoFunc()(w)
+	pr := NewBinaryProtoFunc()(w)
+	var has [4]bool
+	var val [4]string
+	for k := range has {
+		has[k] = vxChoose("hasmeta", 2) == 1
+		val[k] = "value-" + string(rune('a'+k))
+	}
+	if args[0] > 0 {
+		val[0] = vxString("val", args[0])
+	}
+	for k := range has {
+		m := vxTMsg(int32(k+1), []byte("b"))
+		if has[k] {
+			m.Meta().Add("tag", val[k])
+		}
+		vxAssume(pw.Pack(m) == nil)
+	}
+	for k := range has {
+		g := vxNewGot()
+		vxAssert(pr.Unpack(g) == nil, "frame decodes")
+		vxAssert(g.Seq() == int32(k+1), "in order")
+		if has[k] {
+			vxAssert(g.Meta().Len() == 1 && string(g.Meta().Peek("tag")) == val[k], "a message decodes to the metadata it was given")
+		} else {
+			vxAssert(g.Meta().Len() == 0, "a message sent without metadata is received without metadata, whatever was sent before it on the connection")
+		}
+	}
+	vxCover("c01.thrift.metaseq")
+}
